@@ -110,7 +110,11 @@ def n0dn(r): return K(Fr(1, 10)) / (1 + r / 10) if isinstance(r, symx.Sym) else 
 
 
 def spsolve_exact(A, b):
-    return numenv.solve_contract(A.M, b, False)
+    # scipy.sparse.linalg.spsolve: a right-hand side that is a vector OR a matrix with a single column yields a 1-D solution
+    x = numenv.solve_contract(A.M, b, False)
+    if getattr(x, 'ndim', 1) == 2 and x.shape[1] == 1:
+        x = x.ravel()
+    return x
 
 
 def work(item):
@@ -189,8 +193,17 @@ def work(item):
                 res['inconclusive'].append('abort %s %r' % (val.why, item[:7]))
             continue
         res['obligations'] += 1
+        def model_rho(mdl):
+            try:
+                R = st['RHO']
+                return [[[float(Fr(symx.model_value(mdl, R[a, b, c]))) for c in range(R.shape[2])] for b in range(R.shape[1])] for a in range(R.shape[0])]
+            except Exception:
+                return None
         if kind == 'exc':
-            prob = float_replay(m, ps, item)
+            prob = None
+            if ctx.check() == 'sat':
+                prob = float_replay(m, ps, item, model_rho(ctx.model()))
+            prob = prob or float_replay(m, ps, item)
             if prob:
                 res['violations'].append(('qn:exception', '%s: %s / %s' % (type(val).__name__, str(val)[:120], prob), dict(kind='qn', item=[str(x) for x in item[:7]])))
             else:
@@ -303,7 +316,7 @@ def work(item):
         elif r_ == 'sat':
             mdl = ctx.model()
             hits = [w for w, b in zip(where, bad) if z3.is_true(mdl.eval(b, model_completion=True))][:3]
-            prob = float_replay(m, ps, item)
+            prob = float_replay(m, ps, item, model_rho(mdl)) or float_replay(m, ps, item)
             rep = dict(kind='qn', item=[str(x) for x in item[:7]], facts=[str(h) for h in hits], concrete=prob, canary=bool(canary))
             if prob:
                 res['violations'].append(('qn:%s' % ('real' if 'imaginary' in hits[0][0] else 'modes'), '%s; %s' % (hits[0], prob), rep))
@@ -321,7 +334,7 @@ def work(item):
     return res
 
 
-def float_replay(m, ps, item):
+def float_replay(m, ps, item, rho_values=None):
     """real float pipeline (real scipy fft / spsolve) on a random real density vs numpy reference per mode"""
     rdeg, ncells, rpath, nprocs, adiabatic, chi, NQ, _ = item
     numenv.disable()
@@ -334,6 +347,8 @@ def float_replay(m, ps, item):
         eta = [rpts, np.arange(NQ) / NQ, np.arange(nz, dtype=float)]
         rng = np.random.RandomState(8)
         RHO = rng.rand(nr, NQ, nz) - 0.5
+        if rho_values is not None and np.shape(rho_values) == RHO.shape:
+            RHO = np.array(rho_values, dtype=float)         # the solver's density
         Bf = 1.5
         fn0 = lambda r: 1 + r / 10
         fTe = lambda r: 2 - r / 8
